@@ -470,16 +470,30 @@ func init() {
 			r.Files = append(append([]string{}, ircFiles...), "ircserver/c20.go")
 			r.Race = true
 			r.ReplayRuns = 20
-			return []HarnessRun{r}
+			stubs := map[string]string{
+				"(*" + repoMod + "/internal/outputstream.messageBatch).marshal": "codec.marshal",
+				repoMod + "/internal/outputstream.unmarshalMessageBatch":        "codec.unmarshal",
+			}
+			osr := HarnessRun{Name: "outputstream-locksets", Pkg: "internal/outputstream", PkgName: "outputstream", Files: []string{"outputstream/c08.go", "outputstream/c20.go"},
+				SymFiles: []string{"outputstream/c08_sym.go"}, NatFiles: []string{"outputstream/c08_native.go"}, APIs: []string{"ldb"},
+				Entry: "verifHarness_C20_outputstream", Unwind: 8, Stubs: stubs, Race: true, ReplayRuns: 20}
+			apr := HarnessRun{Name: "api-locksets", Pkg: "internal/api", PkgName: "api", Files: []string{"apipkg/common.go", "apipkg/c11.go", "apipkg/c20.go"}, APIs: []string{"http"},
+				Entry: "verifHarness_C20_api", Params: map[string]int{"authlen": 3}, Unwind: 10, Redirect: map[string]string{"time.Sleep": "verifStub_sleep"}, Race: true, ReplayRuns: 20}
+			rsr := HarnessRun{Name: "raftstore-locksets", Pkg: "internal/raftstore", PkgName: "raftstore", Files: []string{"raftstore/c09.go", "raftstore/c20.go"}, APIs: []string{"ldb"},
+				Entry: "verifHarness_C20_raftstore", Params: map[string]int{"entries": 2, "stable": 0}, Unwind: 8, Race: true, ReplayRuns: 20}
+			return []HarnessRun{r, osr, apr, rsr}
 		},
 		Assumptions: []string{
 			"data-race freedom is reduced to lock discipline: for every pair of operations the running system executes concurrently, every two conflicting accesses to the same memory location share a mutex that the writer holds in write mode",
 			"operations are executed one after the other on the same symbolic state with the engine's lock table and access log; the solver decides which paths (and hence which accesses) are feasible",
 			"a lockset conflict is reported only when the native replay under the race detector (-race, the two operations in parallel, 20 rounds) reports a data race",
 		},
-		Bounds:    func(tier string) map[string]interface{} { return map[string]interface{}{"operation_pairs": "8 writer-side x 16 reader-side operations of IRCServer", "state": "2 sessions, 1 channel, fixed shape"} },
-		Outside:   []string{"happens-before edges other than mutexes (channels, goroutine start)", "schedules (this is a discipline check, not an exploration of interleavings)", "OutputStream, LevelDBStore, api.HTTP and FSM operations (their lock tables are exercised by C08/C09 harnesses but pairs are not enumerated here)", "races inside libraries"},
-		Functions: []string{"ircserver.(*IRCServer).ProcessMessage", "UpdateLastClientMessageID", "CreateSession", "SetLastProcessed", "MaybeDeleteSession", "ThrottleUntil", "Marshal", "ExpireSessions", "GetSessions", "GetSession", "GetNick", "LastPostMessage", "NumSessions", "NumChannels", "SessionLimit", "ChannelLimit", "TrustedBridge", "Banned", "GetAuth", "OriginWhitelisted", "captchaConfigured"},
+		Bounds:    func(tier string) map[string]interface{} { return map[string]interface{}{"operation_pairs": "IRCServer 8 writer-side x 16 reader-side; OutputStream 5 x 3; api.HTTP 8 x 8 (unordered); LevelDBStore 3 x 4", "state": "2 sessions, 1 channel, fixed shape; stream with 3 batches; store with 2 entries", "native_rounds_under_race_detector": 20} },
+		Outside:   []string{"happens-before edges other than mutexes (channels, goroutine start)", "schedules (this is a discipline check, not an exploration of interleavings)", "FSM fields (sessionExpirationDur, lastSnapshotState) and package-level variables of main", "operations that block (GetNext waiting for a new message; that path is C08's)", "use of a LevelDBStore after Close (nil handle: a crash, not a race)", "races inside libraries (goleveldb, raft, prometheus)"},
+		Functions: []string{"ircserver.(*IRCServer).ProcessMessage", "UpdateLastClientMessageID", "CreateSession", "SetLastProcessed", "MaybeDeleteSession", "ThrottleUntil", "Marshal", "ExpireSessions", "GetSessions", "GetSession", "GetNick", "LastPostMessage", "NumSessions", "NumChannels", "SessionLimit", "ChannelLimit", "TrustedBridge", "Banned", "GetAuth", "OriginWhitelisted", "captchaConfigured",
+			"outputstream.(*OutputStream).Add", "Delete", "Get", "GetNext", "LastSeen", "InterruptGetNext",
+			"api.(*HTTP).ReplaceState", "ircServer", "ircStore", "output", "setGetMessagesRequests", "deleteGetMessagesRequests", "copyGetMessagesRequests", "DispatchPrivate (password throttle)",
+			"raftstore.(*LevelDBStore).StoreLogProto", "DeleteRange", "Close", "FirstIndex", "LastIndex", "GetLog"},
 		Rule:      "one case per operation pair; non-trivial when both operations ran and the access logs were compared",
 	})
 	registerCheck(&CheckDef{
